@@ -246,9 +246,11 @@ class FunctionDecoratorManager(DecoratorManager):
 
         weakref.finalize(eval_func_var, on_func_var_deleted)
 
-    async def _call(self, data: DispatchData) -> None:
-        handlers = self.get_decorators(CallHandlerDecorator)
-        result_handlers = self.get_decorators(CallResultHandlerDecorator)
+    async def _call(self, data: DispatchData, handlers=None, result_handlers=None) -> None:
+        if handlers is None:
+            handlers = self.get_decorators(CallHandlerDecorator)
+        if result_handlers is None:
+            result_handlers = self.get_decorators(CallResultHandlerDecorator)
 
         for handler_dec in handlers:
             if await handler_dec.handle_call(data) is False:
@@ -310,5 +312,9 @@ class FunctionDecoratorManager(DecoratorManager):
             data.func_args,
         )
 
-        task = Function.create_task(self._call(data), ast_ctx=action_ast_ctx)
+        # the handlers in force now: by the time the task runs a stop() may have emptied the list
+        # (the shutdown occurrence, an occurrence accepted just before a reload)
+        handlers = self.get_decorators(CallHandlerDecorator)
+        result_handlers = self.get_decorators(CallResultHandlerDecorator)
+        task = Function.create_task(self._call(data, handlers, result_handlers), ast_ctx=action_ast_ctx)
         Function.task_done_callback_ctx(task, action_ast_ctx)
